@@ -15,6 +15,7 @@
 package middlewares
 
 import (
+	"bytes"
 	"io"
 
 	"github.com/gofiber/fiber/v2"
@@ -24,6 +25,11 @@ func wrapBodyReader(ctx *fiber.Ctx, wr func(io.Reader) io.Reader) {
 	r, ok := ctx.Locals("body-reader").(io.Reader)
 	if !ok {
 		r = ctx.Request().BodyStream()
+		if r == nil {
+			// a request with neither Content-Length nor
+			// Transfer-Encoding has no body stream: its body is empty
+			r = bytes.NewReader(nil)
+		}
 	}
 
 	r = wr(r)
